@@ -373,6 +373,9 @@ func eqValue(a, b Value, t types.Type) *Term {
 			cs[i] = eqValue(x.E[i], y.E[i], et)
 		}
 		return And(cs...)
+	case *RTypeVal:
+		y, ok := b.(*RTypeVal)
+		return MkBool(ok && types.Identical(x.T, y.T))
 	case nil:
 		return MkBool(isNilValue(b))
 	}
